@@ -448,9 +448,33 @@ type Step struct {
 	SQL  []string // app: statements, run in one transaction when Tx
 	Args [][]any
 	Tx   string // "", "commit", "rollback"
+	// litestream steps: an injected fault on litestream's own staging files (nil: none)
+	Fault *FaultSpec
 }
 
-func (s Step) String() string { return s.Kind }
+// FaultSpec: while the litestream operation runs, the application commits its
+// next step when the k-th LTX staging file is opened (k in Pull), and the
+// FailAt-th staging file fails (Kind 0: open ENOSPC, 1: write ENOSPC, 2: Sync EIO, 3: Close EIO).
+type FaultSpec struct {
+	Pull   [4]bool
+	FailAt int
+	Kind   int
+}
+
+func (f *FaultSpec) String() string {
+	if f == nil {
+		return ""
+	}
+	p := ""
+	for k := 1; k <= 3; k++ {
+		if f.Pull[k] {
+			p += fmt.Sprint(k)
+		}
+	}
+	return fmt.Sprintf("[pull@%s fail@%d kind%d]", p, f.FailAt, f.Kind)
+}
+
+func (s Step) String() string { return s.Kind + s.Fault.String() }
 
 func blob(r *rand.Rand, n int) []byte {
 	b := make([]byte, n)
@@ -558,7 +582,15 @@ func genHistory(r *rand.Rand, cfg Config, steps int) []Step {
 		if r.Intn(100) < 55 {
 			out = append(out, g.appStep())
 		} else {
-			out = append(out, Step{Kind: lsKinds[r.Intn(len(lsKinds))]})
+			st := Step{Kind: lsKinds[r.Intn(len(lsKinds))]}
+			if k := r.Intn(100); k < 35 && (st.Kind == "SYNC" || strings.HasPrefix(st.Kind, "CK-")) {
+				f := &FaultSpec{FailAt: r.Intn(5), Kind: r.Intn(4)}
+				for j := 1; j <= 3; j++ {
+					f.Pull[j] = r.Intn(2) == 0
+				}
+				st.Fault = f
+			}
+			out = append(out, st)
 		}
 	}
 	return out
@@ -571,6 +603,34 @@ type world struct {
 	app     *sql.DB
 	ldb     *litestream.DB
 	replica string
+	probe   *sql.DB // busy_timeout(0): is SQLite's write lock free?
+}
+
+// lockFree reports whether a writer could start right now (nobody holds the write lock).
+func (w *world) lockFree() bool {
+	if w.probe == nil {
+		db, err := sql.Open("sqlite", "file:"+w.path+"?_pragma=busy_timeout(0)")
+		if err != nil {
+			return true
+		}
+		db.SetMaxOpenConns(1)
+		w.probe = db
+	}
+	if _, err := w.probe.Exec("BEGIN IMMEDIATE"); err != nil {
+		return errClass(err) != "busy"
+	}
+	w.probe.Exec("ROLLBACK")
+	return true
+}
+
+func opClass(kind string) string {
+	switch {
+	case strings.HasPrefix(kind, "CK-"):
+		return "checkpoint"
+	case strings.HasPrefix(kind, "SYNC"):
+		return "sync"
+	}
+	return strings.ToLower(kind)
 }
 
 func (w *world) openApp(first bool) error {
@@ -741,7 +801,7 @@ func runHistory(rc *Recorder, base string, seed int64, index int, steps int) err
 	hist := genHistory(rng, cfg, steps)
 	var trace []string
 	for _, s := range hist {
-		trace = append(trace, s.Kind)
+		trace = append(trace, s.String())
 	}
 	replay := map[string]any{"seed": seed, "index": index, "config": cfg.String(), "history": strings.Join(trace, " "), "part": "differential-replay"}
 	classes := rc.cw.Classes
@@ -841,29 +901,80 @@ func runHistory(rc *Recorder, base string, seed int64, index int, steps int) err
 	}
 	check("OPEN", true)
 	appIdx := 0
-	for _, st := range hist {
-		if st.App {
-			out := w.runApp(st)
+	done := make([]bool, len(hist))
+	leaked := false
+	defer func() {
+		if w.probe != nil {
+			w.probe.Close()
+		}
+	}()
+	// runs the application's next step (the first one not yet executed after position from)
+	execNextApp := func(from int) {
+		for j := from; j < len(hist); j++ {
+			if !hist[j].App || done[j] {
+				continue
+			}
+			done[j] = true
+			out := w.runApp(hist[j])
 			if out != ctrlOut[appIdx] {
 				// the application's own statement ended differently (lock contention with the
 				// replicator): the two runs are no longer the same history
 				diverged = true
 				rc.extra["histories_diverged_on_app_outcome"]++
-				rc.extra["diverged:"+st.Kind+":"+out+"/"+ctrlOut[appIdx]]++
-				break
+				rc.extra["diverged:"+hist[j].Kind+":"+out+"/"+ctrlOut[appIdx]]++
+				return
 			}
 			appIdx++
 			napp++
 			rc.extra["app_steps"]++
+			return
+		}
+	}
+	for i, st := range hist {
+		if diverged {
+			break
+		}
+		if st.App {
+			if !done[i] {
+				execNextApp(i)
+			}
 			continue
+		}
+		var fs *faultState
+		if st.Fault != nil {
+			i := i
+			fs = installFault(w, st.Fault, func() {
+				// a concurrent application commit lands while litestream is staging a file
+				// (only when litestream does not hold the write lock at this moment)
+				if !diverged && w.lockFree() {
+					execNextApp(i + 1)
+					rc.extra["app_steps_during_litestream_op"]++
+				}
+			})
 		}
 		before := stamp(w.path)
 		if err := w.runLS(rc, st.Kind); err != nil {
 			rc.violate("harness/litestream-op", fmt.Sprintf("%s: %v", st.Kind, err), replay)
 			break
 		}
+		fired := clearFault(w, fs)
+		if fired {
+			rc.extra["faults_fired"]++
+			rc.extra["fault_fired_in:"+st.Kind]++
+		}
 		after := stamp(w.path)
 		rc.extra["ls:"+st.Kind]++
+		// no litestream operation may return holding SQLite's write lock
+		if !w.lockFree() {
+			sig := "C14/write-lock-held-after-" + opClass(st.Kind)
+			if fired {
+				sig = "C14/write-lock-leaked-after-failed-" + opClass(st.Kind)
+			}
+			rc.violate(sig, fmt.Sprintf("after %s%s returned, a writer with busy_timeout(0) gets SQLITE_BUSY: litestream still holds the write lock, "+
+				"every application write fails from here on", st.Kind, st.Fault.String()), replay)
+			leaked = true
+			break
+		}
 		if before.sum != after.sum || before.size != after.size {
 			rc.extra["dbfile_changed_by:"+st.Kind]++
 			if !mayCheckpoint(st.Kind) {
@@ -874,6 +985,11 @@ func runHistory(rc *Recorder, base string, seed int64, index int, steps int) err
 			rc.violate("C14/db-file-touched-outside-checkpoint", fmt.Sprintf("%s changed the database file's mtime", st.Kind), replay)
 		}
 		check(st.Kind, true)
+	}
+	if leaked {
+		rc.extra["histories_aborted_on_lock_leak"]++
+		_ = w.runLS(rc, "CLOSE")
+		return nil
 	}
 	if !diverged {
 		before := stamp(w.path)
@@ -894,7 +1010,8 @@ func main() {
 	steps := flag.Int("steps", 45, "steps per history")
 	seed := flag.Int64("seed", 1, "PRNG seed")
 	stmtsPath := flag.String("stmts", "", "regenerated statement list (coq/Gen/stmts.json)")
-	only := flag.Int("only", -1, "run only the history with this index (replay)")
+	only := flag.Int("only", -1, "run only the history with this index (replay); -2-k: only fault scenario k")
+	scen := flag.Int("scenarios", 1, "systematic fault scenarios: 0 none, 1 one fault kind per scenario, 2 every kind")
 	shard := flag.Int("shard", 0, "this process runs the histories with index % shards == shard")
 	shards := flag.Int("shards", 1, "number of parallel harness processes")
 	flag.Parse()
@@ -915,13 +1032,18 @@ func main() {
 		os.Exit(3)
 	}
 	defer os.RemoveAll(base)
-	if *stmtsPath != "" && *only < 0 && *shard == 0 {
+	if *stmtsPath != "" && *only == -1 && *shard == 0 {
 		if err := runStatementReplay(rc, *stmtsPath, base, NewRand(*seed)); err != nil {
 			rc.violations = append(rc.violations, ImplViolation{Signature: "harness/statement-replay", Detail: err.Error()})
 		}
 	}
+	if *only == -1 && *scen != 0 {
+		runFaultScenarios(rc, base, *seed, *shard, *shards, *scen, -1)
+	} else if *only <= -2 {
+		runFaultScenarios(rc, base, *seed, 0, 1, 2, -*only-2)
+	}
 	for i := 0; i < *n; i++ {
-		if (*only >= 0 && i != *only) || (*only < 0 && i%*shards != *shard) {
+		if (*only >= 0 && i != *only) || (*only == -1 && i%*shards != *shard) || *only <= -2 {
 			continue
 		}
 		if err := runHistory(rc, base, *seed, i, *steps); err != nil {
@@ -937,6 +1059,7 @@ func main() {
 		st.Extra[k] = v
 	}
 	st.Extra["histories"] = *n
+	st.Extra["fault_injection"] = faultInjection
 	if err := WriteJSON(filepath.Join(*out, "stats.json"), st); err != nil {
 		fmt.Fprintln(os.Stderr, err)
 		os.Exit(3)
